@@ -23,6 +23,9 @@ fn profile(rng: &mut Rng) -> Profile {
     p.p_midblock = (1, 4);
     p.p_mine = (1, 20);
     p.p_reorg = (1, 12);
+    // losses of caches in the common history: what a read wrote behind the caches' back would survive them
+    p.p_clear = (1, 10);
+    p.p_restart = (1, 20);
     p.w_spin = 0;
     p.w_erc = 5;
     p.signed_chaos = rng.chance(1, 3);
